@@ -32,23 +32,9 @@ def reg_leaf(facts, t, name):
 
 def run(ctx):
     ck, facts = ctx.check, ctx.facts
-    try:
-        reg = facts.method(AXE, "register_pipe")
-    except KeyError as e:
-        ck.violation("C14.keys", "pipe hooks", str(e))
-        return
-    cl = [c for c in facts.closures_of(reg["path"]) if c.count("{closure#") == 1]
-    ck.floor("pipe hook closures", len(cl), 3)
-    # which closure serves which syscall number: one plain run each
-    by_num = {}
-    for c in cl:
-        sm = SQ.SeqMapPrims(facts, MAPS, ("pipe_contents",))
-        outs, I, b = C13.run_hook_closure(ctx, c, sm.intercept)
-        for o in outs:
-            if o.kind == "return":
-                s = C13.rax_selector(facts, o)
-                if s:
-                    by_num[s[0]] = c
+    # which closure serves which syscall number (found by what each native hook's RAX test selects)
+    by_num = {n: c for n, c in C13.hook_closures_by_syscall(ctx).items() if n in (22, 0, 1)}
+    ck.floor("pipe hook closures", len(by_num), 3)
     want = {22: "pipe", 0: "read", 1: "write"}
     for num, nm in want.items():
         if num not in by_num:
